@@ -363,10 +363,10 @@ def run_sd(case):
 CLAUSES = [
   Enumerated("mkd_exhaustive", ex_cases, run_ex, shards={"quick": 16, "thorough": 64},
              doc="every history up to length 4 (quick) / 5 (thorough) over 27 ops on keys a,b,c and values 1,2"),
-  Clause("mkd_histories", strat_mkd, run_mkd, quick=4000, thorough=60000,
+  Clause("mkd_histories", strat_mkd, run_mkd, quick=4000, thorough=60000, fuzz={"thorough": 80000},
          floors={"shared": .2, "merge-by-equal-value": .2, "overwrite": .2, "delete-last-key": .03},
          doc="random histories over hash-equal key/value spellings, tuple keys with duplicates, construction from a dict"),
-  Clause("strategydict", strat_sd, run_sd, quick=3000, thorough=40000,
+  Clause("strategydict", strat_sd, run_sd, quick=3000, thorough=40000, fuzz={"thorough": 80000},
          floors={"shared": .15, "default re-chosen": .03, "merge-by-equal-value": .15},
          doc="StrategyDict: items == attributes, default selection and re-selection, call dispatch"),
 ]
